@@ -16,6 +16,7 @@ pub mod recursion {
         static DEPTH_HW: Cell<usize> = Cell::new(0);
         static SP_TOP: Cell<usize> = Cell::new(0);
         static SP_LOW: Cell<usize> = Cell::new(usize::MAX);
+        static PARSE_GUARDS: Cell<u64> = Cell::new(0);
     }
 
     /// Snapshot of the marks since the last [`reset`].
@@ -64,6 +65,22 @@ pub mod recursion {
         }
     }
 
+    /// Lowers the stack pointer low-water mark to the current stack pointer
+    /// (called from the parser's recursion guard: templates loaded lazily are
+    /// parsed on top of the interpreter activations that include them).
+    #[inline(never)]
+    pub(crate) fn note_sp() {
+        let marker = 0u8;
+        let sp = &marker as *const u8 as usize;
+        SP_LOW.with(|x| x.set(x.get().min(sp)));
+        PARSE_GUARDS.with(|x| x.set(x.get() + 1));
+    }
+
+    /// Number of times the parser's recursion guard was passed since the last [`reset`].
+    pub fn parse_guards() -> u64 {
+        PARSE_GUARDS.with(|x| x.get())
+    }
+
     pub(crate) fn note_depth(depth: usize) {
         DEPTH_HW.with(|x| x.set(x.get().max(depth)));
     }
@@ -92,6 +109,7 @@ pub mod recursion {
         DEPTH_HW.with(|x| x.set(0));
         SP_TOP.with(|x| x.set(0));
         SP_LOW.with(|x| x.set(usize::MAX));
+        PARSE_GUARDS.with(|x| x.set(0));
     }
 }
 
